@@ -80,7 +80,8 @@ CHAINS.update({
     "x86+copy": [{"id": FILTER_X86}] + BASE["copy"],
 })
 for _k in list(BASE):
-    CHAINS[_k + "+aes"] = BASE[_k] + [AES]
+    if _k != "brotli":   # archives written with [Brotli, 7zAES] cannot be read back at all ("decoder failed"): not a C20 matter
+        CHAINS[_k + "+aes"] = BASE[_k] + [AES]
 
 # decoder class -> codec family named in findings
 FAMILY = {
@@ -483,7 +484,7 @@ def rand_toy_case(rng):
     calls = []
     for _ in range(rng.randrange(1, 9)):
         ml = rng.choice([-1, 0, 1, 2, 3, 5, 8, 13, 40, 200])
-        rd = rng.choice([1 << 20, 1 << 20, 1 << 20, 0, 1, 2, 3])
+        rd = rng.choice([999, 999, 999, 0, 1, 2, 3])
         calls.append([ml, rd])
     return {"states": states, "us": us, "isz": isz, "bsz": bsz, "packed": packed, "calls": calls}
 
@@ -515,7 +516,7 @@ def check_toy_decompress(ctx, rep, rng, tier):
     model = ctx["model"]
     if model is None:
         return
-    n = 400 if tier == "quick" else 6000
+    n = 3000 if tier == "quick" else 40000
     fixed = [
         # the refutation witness of Mem.live_bytes_bounded_any_chain_refuted
         {"states": [[2, 250, []]], "us": [100000], "isz": 8, "bsz": 4, "packed": list(range(1, 9)), "calls": [[8, 8]]},
@@ -600,14 +601,29 @@ def run_worker(d, fp, size, mb, max_calls=2000):
     return (bytes(sink.b), state["peak"], len(d._buf))
 
 
+def toy_total(c):
+    """how many bytes the toy chain delivers for the packed stream, fed block by block"""
+    chain = [ToyDec(s[0], s[1], bytes(s[2])) for s in c["states"]]
+    data = bytes(c["packed"][:max(0, c["isz"])])
+    total = 0
+    for piece in [data[i:i + c["bsz"]] for i in range(0, len(data), c["bsz"])] + [b""]:
+        x = piece
+        for st in chain:
+            x = st.decompress(x, -1)
+        total += len(x)
+    return total
+
+
 def check_toy_worker(ctx, rep, rng, tier):
     model = ctx["model"]
     if model is None:
         return
-    n = 150 if tier == "quick" else 2500
+    n = 1500 if tier == "quick" else 20000
     for i in range(n):
         c = rand_toy_case(rng)
-        size = rng.choice([0, 1, 7, 30, 60, 120])
+        c["us"] = [1000] * len(c["us"]) if rng.random() < 0.8 else c["us"]
+        total = toy_total(c)
+        size = rng.choice([total, total, total, max(0, total - 3), total // 2, min(total, 30), total + 5, 0])
         mb = rng.choice([1, 2, 5, 8, 16, 64])
         fuel = 300
         want = model.call("mem_toy_worker", [fuel, c["states"], c["us"], c["isz"], c["bsz"], c["packed"], size, mb, []])
@@ -660,13 +676,13 @@ def check_toy_compress(ctx, rep, rng, tier):
     model = ctx["model"]
     if model is None:
         return
-    n = 200 if tier == "quick" else 3000
+    n = 1500 if tier == "quick" else 20000
     for i in range(n):
         ns = rng.choice([1, 2, 3])
         states = [[rng.choice([0, 0, 1, 2, 5]), []] for _ in range(ns)]
         fd = [rng.randrange(256) for _ in range(rng.choice([0, 1, 6, 15, 31]))]
         bs = rng.choice([1, 2, 3, 4, 8, 64])
-        sched = [rng.choice([1 << 20, 1 << 20, 1, 2, 3]) for _ in range(rng.randrange(0, 6))]
+        sched = [rng.choice([999, 999, 1, 2, 3]) for _ in range(rng.randrange(0, 6))]
         want = model.call("mem_ctoy_compress", [200, states, fd, bs, sched])
         rep.count(("toycomp", repr(states), bytes(fd), bs, tuple(sched)), nontrivial=len(fd) > 0)
         c = SevenZipCompressor(filters=[{"id": FILTER_COPY}] * ns, blocksize=bs)
@@ -905,7 +921,7 @@ def specs_for(tier):
     FL = {"op": "extract_factory", "limit": 8 * MB}
     specs = []
 
-    def add(chain, mb, pattern="zeros", position="only", ops=(F,), write_op="write", timeout=170, cap=6144):
+    def add(chain, mb, pattern="zeros", position="only", ops=(F,), write_op="write", timeout=170, cap=4096):
         specs.append({"chain": chain, "members": members_for(mb * MB, pattern, position), "ops": list(ops),
                       "write_op": write_op, "timeout": timeout, "cap_mb": cap, "pattern": pattern, "position": position,
                       "size_mb": mb})
@@ -1053,7 +1069,7 @@ def explore_start(tier):
     specs = specs_for(tier)
     # longest first
     order = sorted(range(len(specs)), key=lambda i: -(specs[i]["size_mb"] * (8 if "ppmd" in specs[i]["chain"] else 1)))
-    ex = ThreadPoolExecutor(max_workers=8 if tier == "quick" else 7)
+    ex = ThreadPoolExecutor(max_workers=8 if tier == "quick" else 5)
     futs = {i: ex.submit(pipeline, specs[i]) for i in order}
     return {"specs": specs, "futs": futs, "ex": ex, "t0": time.time()}
 
